@@ -17,6 +17,8 @@ import (
 //	proxy/server/session.go  handleHandshakeResponse: len(info.AuthResponse) == 32
 //	proxy/server/manager.go  UserManager.CheckHashPassword:
 //	                         strings.HasPrefix(password, "*") && len(password) == 41
+//	                         isStoredHashPassword: the same two tests (and hex.DecodeString);
+//	                         whether CheckPassword / CheckSha2Password call it
 
 func init() { register(extractC30) }
 
@@ -167,6 +169,74 @@ func extractC30(repo string) ([]fact, error) {
 	if nprefix != 1 {
 		return nil, fmt.Errorf("C30: expected exactly one strings.HasPrefix(password, \"…\") in UserManager.CheckHashPassword, found %d", nprefix)
 	}
+	// the predicate the clear-text loops skip entries with
+	sh := c30FuncDecl(mf, "", "isStoredHashPassword")
+	if sh == nil {
+		return nil, fmt.Errorf("C30: func isStoredHashPassword not found in proxy/server/manager.go")
+	}
+	shLens := c30LenEq(sh)
+	if len(shLens) != 1 {
+		return nil, fmt.Errorf("C30: expected exactly one comparison len(password) == N in isStoredHashPassword, found %v", shLens)
+	}
+	shPrefix, shN, shHex := "", 0, 0
+	ast.Inspect(sh.Body, func(n ast.Node) bool {
+		call, ok := n.(*ast.CallExpr)
+		if !ok {
+			return true
+		}
+		sel, ok := call.Fun.(*ast.SelectorExpr)
+		if !ok {
+			return true
+		}
+		if sel.Sel.Name == "DecodeString" {
+			shHex++
+		}
+		if sel.Sel.Name == "HasPrefix" && len(call.Args) == 2 {
+			if lit, ok := call.Args[1].(*ast.BasicLit); ok && lit.Kind == token.STRING {
+				if s, err := strconv.Unquote(lit.Value); err == nil {
+					shPrefix = s
+					shN++
+				}
+			}
+		}
+		return true
+	})
+	if shN != 1 || shHex != 1 {
+		return nil, fmt.Errorf("C30: expected one strings.HasPrefix(password, \"…\") and one hex.DecodeString in isStoredHashPassword, found %d and %d", shN, shHex)
+	}
+	callsPredicate := func(name string) (string, error) {
+		fd := c30FuncDecl(mf, "UserManager", name)
+		if fd == nil {
+			return "", fmt.Errorf("C30: func (*UserManager) %s not found in proxy/server/manager.go", name)
+		}
+		found := false
+		ast.Inspect(fd.Body, func(n ast.Node) bool {
+			if call, ok := n.(*ast.CallExpr); ok {
+				if id, ok := call.Fun.(*ast.Ident); ok && id.Name == "isStoredHashPassword" {
+					found = true
+				}
+			}
+			return true
+		})
+		return strconv.FormatBool(found), nil
+	}
+	clearSkips, err := callsPredicate("CheckPassword")
+	if err != nil {
+		return nil, err
+	}
+	sha2Skips, err := callsPredicate("CheckSha2Password")
+	if err != nil {
+		return nil, err
+	}
+	facts = append(facts,
+		fact{name: "c30StoredHashLen", typ: "Nat", val: strconv.Itoa(shLens[0]),
+			doc: "N of `len(password) == N` in isStoredHashPassword"},
+		fact{name: "c30StoredHashPrefix", typ: "String", val: strconv.Quote(shPrefix),
+			doc: "prefix tested by strings.HasPrefix in isStoredHashPassword"},
+		fact{name: "c30CheckPasswordCallsStoredHash", typ: "Bool", val: clearSkips,
+			doc: "UserManager.CheckPassword calls isStoredHashPassword"},
+		fact{name: "c30CheckSha2PasswordCallsStoredHash", typ: "Bool", val: sha2Skips,
+			doc: "UserManager.CheckSha2Password calls isStoredHashPassword"})
 	facts = append(facts,
 		fact{name: "c30HashedPasswordLen", typ: "Nat", val: strconv.Itoa(lens[0]),
 			doc: "N of `len(password) == N` in UserManager.CheckHashPassword"},
